@@ -871,6 +871,15 @@ func c14Csv(ctx *Ctx, n int) {
 			for _, k := range []int{len(hdr), len(distinct)} {
 				recs, failed := csvReadAll(in, k)
 				o.add("csvAll", []string{in, strconv.Itoa(k)}, encRecs(recs, failed))
+				// the law about encoding/csv that C14.csvdecode_never_panics assumes: with FieldsPerRecord = k > 0 every
+				// record delivered before the first error has exactly k fields
+				okRecs := true
+				for _, rec := range recs {
+					if k > 0 && len(rec) != k {
+						okRecs = false
+					}
+				}
+				ctx.Probe("csv-fields-per-record", okRecs, fmt.Sprintf("csv.Reader{FieldsPerRecord: %d} on %q delivered %v", k, in, recs))
 			}
 		}
 		// reference: encoding/csv's own ReadAll (first record fixes the field count)
